@@ -9,8 +9,8 @@ SPEC = {
                  'of two chunks with their own symbolic data and per-call parameters; per-chunk results compared with the isolated '
                  'runs (z3, per path); module-state monitor over all mutable objects reachable from the globals and classes of ampycloud.*',
     'bounds': {'quick': 'two chunks of one hit each on different ceilometers, per-call dictionaries with keys of depth 1 and 3, all 70 '
-                        'interleavings of the 4+4 stage calls; two hits each for 5 schedules',
-               'thorough': 'as quick plus chunks of 2 hits for 20 schedules'},
+                        'interleavings of the 4+4 stage calls',
+               'thorough': 'as quick plus chunks of 2 hits for 2 schedules'},
     'outside': 'CPython thread pre-emption inside a stage and anything inside the C extensions under threads: there is no symbolic scheduler '
                'for Python threads here (this family of technique does not handle concurrency); three chunks',
     'budget_s': {'quick': 1200, 'thorough': 3600},
@@ -90,8 +90,8 @@ def h_interleave(E, n, sched):
 
 
 HARNESSES = [
-    H('H-interleave', h_interleave, quick=[(1, s) for s in range(len(SCHEDULES))] + [(2, s) for s in (0, 17, 35, 52, 69)],
-      thorough=[(1, s) for s in range(len(SCHEDULES))] + [(2, s) for s in range(0, len(SCHEDULES), 4)], float_model='R',
+    H('H-interleave', h_interleave, quick=[(1, s) for s in range(len(SCHEDULES))],
+      thorough=[(1, s) for s in range(len(SCHEDULES))] + [(2, s) for s in (17, 52)], float_model='R',
       cover=['ran'], scripted=True,
       assumptions=['utils.check_data_consistency replaced by a stand-in on the accepted tables (C15)'],
       doc='every interleaving of the stage calls of two chunks: each chunk ends exactly as when processed alone; module state untouched'),
